@@ -133,9 +133,13 @@ func CoordinatesHint(hint *Hint) int {
 	usedY := 0
 	lines := strings.Split(text, term.ClearLineAfter)
 
-	for i, line := range lines {
-		x, y := strutil.LineSpan([]rune(line), i, 0)
-		if x != 0 {
+	for _, line := range lines {
+		// Each section but the first begins with the newline that ends
+		// the section before it, whose row has been counted already.
+		line = strings.TrimPrefix(line, term.NewlineReturn)
+
+		x, y := strutil.LineSpan([]rune(line), 0, 0)
+		if x != 0 || y == 0 {
 			y++
 		}
 
